@@ -420,7 +420,7 @@ func runC27(r *Report) {
 					if !ok || c.Call.StaticCallee() != nil || c.Call.IsInvoke() || len(c.Call.Args) != 1 || !IsNilConst(c.Call.Args[0]) {
 						return false
 					}
-					d := DescDeep(c.Call.Value)
+					d := ValueDescThroughParam(c.Call.Value)
 					if suffix == ".onInvalidations" {
 						return strings.HasSuffix(d, suffix) && !strings.HasSuffix(d, ".hooks.onInvalidations")
 					}
